@@ -163,4 +163,65 @@ Proof.
     + apply (Hrest st2 false (off + nextoff) (DL bnd [])); [lia|exact G2|reflexivity].
 Qed.
 
+(** send_qp on any window inside the message *)
+Theorem entity_legal : forall fuel b len st, b + len <= length m -> len < fuel -> good ext8 D0 st [] ->
+  exists r, send_qp fuel m helo ext8 b len st = Ok r /\ ent_ok (sub m b len) r.
+Proof.
+  induction fuel as [|fu IH]; intros b len st Hw Hf Hg; [lia|].
+  rewrite send_qp_S. rewrite (need_recode_ok m b len Hw). cbn [bind].
+  destruct (Nat.eqb_spec len 0) as [|Hl]; [eexists; split; [reflexivity|apply ent_done_nil; exact Hg]|]. cbv zeta.
+  set (W := sub m b len). set (rf := nr_fun W flags0 0 false).
+  destruct (qp_header_spec m helo ext8 b len Hw ltac:(lia) Hhelo D0 (f8 rf || fline rf) st Hg) as (rh & Erh & Hd). rewrite Erh.
+  destruct rh as [[h mp] st1|why st1]; cbn [bindR].
+  2: { eexists. split; [reflexivity|]. cbn [hdr_done] in Hd. subst st1. exists []. apply good_good0. exact Hg. }
+  destruct Hd as (Hh & (ls & ll & Emp) & Hbnd & H8 & Hlr & t & Gt & Ht). fold W in Hlr, Ht.
+  destruct (Nat.ltb_spec len h) as [|_]; [lia|].
+  assert (Hbody : exists r, (if f8 rf || fline rf then liftS (recode_qp m (b + h) (len - h) st1)
+                             else liftS (send_plain m (b + h) (len - h) st1)) = Ok r /\ ent_ok W r).
+  { destruct (entity_body m ext8 b len Hw ltac:(lia) D0 h st1 t Hbytes Hh Hlr Gt Ht) as (st2 & t2 & E2 & G2 & H2).
+    fold W in E2, H2. fold rf in E2. rewrite E2. eexists. split; [reflexivity|]. exists t2. auto. }
+  destruct mp as [bs bl| | |why]; try exact Hbody.
+  destruct (Hbnd bs bl eq_refl) as (Hbl & Hbin).
+  rewrite rdn_ok by exact Hbin. cbn [bind]. set (bnd := sub m bs bl).
+  assert (Hblen : bl = length bnd) by (unfold bnd; rewrite sub_length by lia; reflexivity).
+  assert (Hbok : bnd_ok bnd).
+  { split; [|rewrite <- Hblen; lia]. destruct (is_multipart_bchars m ls ll bs bl Emp) as (q & Hq).
+    apply Forall_sub_at; [exact Hbin|]. intros k Hk. apply (bchar_ok_range q). apply Hq. exact Hk. }
+  destruct (find_boundary_ok m (b + h) (len - h) bnd) as (nextoff & Efb & Hfb); [lia|]. rewrite Efb. cbn [bind].
+  destruct (Nat.eqb_spec nextoff 0) as [Hz|Hnz].
+  - cbv zeta.
+    pose proof (lit_open_delim ext8 D0 bnd Hbok st1 t (good_good0 _ _ _ _ Gt)) as Ga.
+    set (sta := wr (wr (wr st1 S_CRLF_DD) bnd) CRLF) in *.
+    pose proof (lit_recodeheader ext8 D0 helo sta Hhelo Ga) as Gb.
+    set (stb := wr (recodeheader helo sta) CRLF) in *.
+    destruct (qp_piece ext8 m (b + h) (len - h) D0 stb) as (stc & tc & Ec & Gc); [lia|exact Hbytes|exact Gb|].
+    rewrite Ec. cbn [bind]. eexists. split; [reflexivity|]. apply ent_done_nil. apply good_set_lastlf.
+    apply (lit_close_delim ext8 D0 bnd Hbok stc tc). apply good_good0. exact Gc.
+  - destruct Hfb as [|(Hr & Hdash)]; [contradiction|].
+    assert (Et : t = []) by (apply Ht; left; lia). subst t.
+    rewrite (need_recode_ok m (b + h) nextoff) by lia. cbn [bind].
+    assert (Hpre : exists st2 t2, (if flags_any (nr_fun (sub m (b + h) nextoff) flags0 0 false) then Ok (wr (wr st1 PREAMBLE_TXT) bnd)
+                                   else send_plain m (b + h) nextoff st1) = Ok st2 /\ good0 ext8 D0 st2 t2).
+    { destruct (flags_any (nr_fun (sub m (b + h) nextoff) flags0 0 false)) eqn:Eany.
+      - eexists. eexists. split; [reflexivity|]. apply (lit_preamble ext8 D0 bnd Hbok st1 []). apply good_good0. exact Gt.
+      - destruct (plain_piece ext8 m (b + h) nextoff D0 st1) as (st2 & t2 & E2 & G2 & _); [lia|apply flags_any_none; exact Eany|exact Gt|].
+        exists st2, t2. split; [exact E2|]. apply good_good0. exact G2. }
+    destruct Hpre as (st2 & t2 & E2 & G2). rewrite E2. cbn [bind]. cbv zeta.
+    destruct (dash_step m b len h nextoff bnd Hw ltac:(lia)) as (e & Ee & Hin & He); [right; auto|exact Hnz|].
+    rewrite Ee. cbn [bind].
+    assert (Hrest : forall st3 il off3 t3, h + nextoff <= off3 <= len -> good0 ext8 D0 st3 t3 ->
+      exists r,
+        (if Nat.ltb len off3 then Crash 41%N else
+         do tp <- skip_tpad m (b + off3) (len - off3);
+         parts_fix (send_qp fu m helo ext8) m ext8 b len bnd bl (S len) (off3 + tp) il (wr st3 CRLF)) = Ok r /\ ent_ok W r).
+    { intros st3 il off3 t3 Ho3 G3. destruct (Nat.ltb_spec len off3) as [|_]; [lia|].
+      destruct (skip_tpad_total m (b + off3) (len - off3)) as (tp & Et & Htp); [lia|]. rewrite Et. cbn [bind].
+      apply (parts_legal (send_qp fu m helo ext8) b len bnd bl Hw Hblen Hbok); [|lia|lia|apply (lit_crlf ext8 D0 st3 t3 G3)].
+      intros b' len' st' H1 H2 G'. apply IH; [lia|lia|exact G']. }
+    destruct e.
+    + specialize (He eq_refl). apply (Hrest _ true (h + nextoff + 2) (DL bnd [DASH; DASH])); [lia|].
+      apply (lit_first_is_last ext8 D0 bnd Hbok st2 t2 G2).
+    + apply (Hrest st2 false (h + nextoff) t2); [lia|exact G2].
+Qed.
+
 End Walk.
